@@ -173,7 +173,15 @@ pub fn mutate(rng: &mut Rng, v: &Value, tb: &Tables, cfg: &GenCfg) -> Value {
 /// (error messages quote offending strings; truncation must respect boundaries).
 fn long_string(rng: &mut Rng) -> Value {
     let mut s = String::new();
-    let target = rng.range(50, 150);
+    // lengths around the powers of two at which a message or scratch buffer might be cut
+    let target = match rng.below(6) {
+        0 => rng.range(60, 70),
+        1 => rng.range(124, 134),
+        2 => rng.range(250, 264),
+        3 => rng.range(508, 520),
+        4 => rng.range(1020, 1032),
+        _ => rng.range(50, 150),
+    };
     let pad = rng.below(4);
     for _ in 0..pad {
         s.push('a');
@@ -253,17 +261,73 @@ pub fn run<T: Fam>(rep: &mut Report, rng: &mut Rng, tb: &Tables) {
     }
 }
 
+#[derive(serde_derive::Deserialize, Debug)]
+#[serde(untagged)]
+#[allow(dead_code)]
+enum Untagged {
+    Flag(bool),
+    Int(i64),
+    Big(u64),
+    Real(f64),
+    Text(String),
+    Pair(i32, String),
+    Many(Vec<Untagged>),
+    Unit(()),
+}
+
+/// Targets whose Deserialize impl is driven by `deserialize_any` (self-describing
+/// mode). They are outside the C04 family, so only the first sentence of the
+/// statement is demanded of them: a value or a data-category error, never a panic.
+fn any_driven(rep: &mut Report, rng: &mut Rng, tb: &Tables) {
+    let mut cfg = GenCfg::default_dialect();
+    cfg.name_ok = gen::any_name;
+    cfg.max_depth = 4;
+    let v = if rng.chance(1, 10) { long_string(rng) } else { gen::gen_value(rng, &cfg, tb, 0) };
+    let which = rng.below(4);
+    let name = ["serde_json::Value", "serde::de::IgnoredAny", "#[serde(untagged)] enum", "Vec<serde::de::IgnoredAny>"][which];
+    rep.eval();
+    rep.distinct(hash2(hash_str(name), hash_str(&format!("{:?}", v))));
+    let r = panics::guarded(|| match which {
+        0 => serde_lexpr::from_value::<serde_json::Value>(&v).map(|_| ()),
+        1 => serde_lexpr::from_value::<serde::de::IgnoredAny>(&v).map(|_| ()),
+        2 => serde_lexpr::from_value::<Untagged>(&v).map(|_| ()),
+        _ => serde_lexpr::from_value::<Vec<serde::de::IgnoredAny>>(&v).map(|_| ()),
+    });
+    let replay = json!({"type": name, "value": dbg_value(&v), "origin": "any-driven"});
+    match r {
+        Err(p) => {
+            if p.in_library() {
+                rep.violation("total", format!("C18:panic:{}", p.sig()), format!("from_value::<{}>({}) panicked: {}", name, dbg_value(&v), p.short()), replay);
+            } else {
+                rep.inconclusive(format!("harness panic: {}", p.short()));
+            }
+        }
+        Ok(Err(e)) => {
+            if e.classify() == Category::Data {
+                rep.count("any-driven:rejected:data-error");
+            } else {
+                rep.violation("total", format!("C18:error-category:{:?}:{}", e.classify(), name), format!("from_value::<{}>({}) failed with category {:?}: {}", name, dbg_value(&v), e.classify(), e), replay);
+            }
+        }
+        Ok(Ok(())) => rep.count("any-driven:accepted"),
+    }
+}
+
 pub fn sets(ctx: &Ctx) -> Vec<CaseSet> {
     let fam = family();
     let n = fam.len() as u64;
     let per = ctx.size(20_000, 900_000);
     let tb = Arc::new(Tables::new());
-    vec![CaseSet::new(
-        "arbitrary-and-near-miss-values-x-type-family",
-        n * per,
-        Box::new(move |rep, rng, case| {
-            let e = &fam[(case % n) as usize];
-            (e.c18)(rep, rng, &tb);
-        }),
-    )]
+    let tb2 = tb.clone();
+    vec![
+        CaseSet::new("any-driven-targets-totality", ctx.size(30_000, 1_500_000), Box::new(move |rep, rng, _| any_driven(rep, rng, &tb2))),
+        CaseSet::new(
+            "arbitrary-and-near-miss-values-x-type-family",
+            n * per,
+            Box::new(move |rep, rng, case| {
+                let e = &fam[(case % n) as usize];
+                (e.c18)(rep, rng, &tb);
+            }),
+        ),
+    ]
 }
